@@ -46,6 +46,7 @@ type tr2 struct {
 	params     []string          // its parameters (binders) and their names, for the loop definitions
 	pnames     []string
 	usesFuel   bool
+	postStmt   *ast.AssignStmt // the post statement of the three-clause loop being translated
 	helperDefs []string
 	file       *ast.File         // the file being translated (helpers and constants are looked up in it)
 	helpers    map[string]string // package-level helper functions translated on demand: Go name → result kind
@@ -59,7 +60,7 @@ type tr2 struct {
 }
 
 var leanTypeOfKind = map[string]string{"ents": "List Entry", "omap": "List Entry", "int": "Int", "cids": "List Hash",
-	"set": "List Hash", "smap": "List (Hash × Hash)", "entry": "Entry", "hash": "Hash", "bool": "Bool", "bytes": "Bytes", "key": "Entry", "log": "Unit", "queue": "Q", "optentry": "Option Entry", "chan": "List Entry", "iteropts": "Unit"}
+	"set": "List Hash", "smap": "List (Hash × Hash)", "entry": "Entry", "hash": "Hash", "bool": "Bool", "bytes": "Bytes", "key": "Entry", "log": "Unit", "queue": "Q", "optentry": "Option Entry", "chan": "List Entry", "iteropts": "Unit", "appendopts": "Unit"}
 
 func (t *tr2) fail(n ast.Node, why string) string {
 	t.errs = append(t.errs, fmt.Sprintf("%s: %s", why, src(t.fset, n)))
@@ -218,7 +219,7 @@ func (t *tr2) expr(e ast.Expr) (string, string) {
 				return "(decide (" + a + " " + op + " " + b + "))", "bool"
 			}
 		case token.EQL, token.NEQ:
-			if kb == "nil" && (ka == "iteropts" || ka == "chan") {
+			if kb == "nil" && (ka == "iteropts" || ka == "chan" || ka == "appendopts") {
 				// the options and the channel are given (their nil tests are the caller's contract)
 				if x.Op == token.EQL {
 					return "false", "bool"
@@ -254,6 +255,9 @@ func (t *tr2) expr(e ast.Expr) (string, string) {
 			if k, ok := t.kinds[id.Name+"."+x.Sel.Name]; ok {
 				return leanName(id.Name + "." + x.Sel.Name), k
 			}
+		}
+		if id, ok := x.X.(*ast.Ident); ok && t.kinds[id.Name] == "appendopts" && x.Sel.Name == "PointerCount" {
+			return "optsPointerCount", "int"
 		}
 		if id, ok := x.X.(*ast.Ident); ok && t.kinds[id.Name] == "iteropts" {
 			switch x.Sel.Name {
@@ -395,7 +399,7 @@ func (t *tr2) helper(x *ast.CallExpr, name string) (string, string, bool) {
 
 func (t *tr2) call(x *ast.CallExpr) (string, string) {
 	if id, ok := x.Fun.(*ast.Ident); ok {
-		if _, builtin := map[string]bool{"len": true, "append": true, "make": true, "maxInt": true, "minInt": true, "maxClockTimeForEntries": true}[id.Name]; !builtin {
+		if _, builtin := map[string]bool{"len": true, "append": true, "make": true, "maxInt": true, "minInt": true, "maxClockTimeForEntries": true, "getEveryPow2": true}[id.Name]; !builtin {
 			if r, k, ok := t.helper(x, id.Name); ok {
 				return r, k
 			}
@@ -418,6 +422,9 @@ func (t *tr2) call(x *ast.CallExpr) (string, string) {
 				if x.Ellipsis == token.NoPos && ((k == "ents" && ka == "entry") || (k == "cids" && ka == "hash")) {
 					return "(" + s + " ++ [" + a + "])", k
 				}
+				if x.Ellipsis == token.NoPos && k == "ents" && ka == "optentry" {
+					return "(" + s + " ++ [" + a + ".getD default])", k
+				}
 			}
 		case "make":
 			if len(x.Args) >= 1 {
@@ -427,6 +434,14 @@ func (t *tr2) call(x *ast.CallExpr) (string, string) {
 						return t.fail(x, "make with a non-zero length"), ""
 					}
 					return zeroOfKind(k), k
+				}
+			}
+		case "getEveryPow2":
+			if len(x.Args) == 2 {
+				a, ka := t.expr(x.Args[0])
+				b, kb := t.expr(x.Args[1])
+				if ka == "omap" && kb == "int" {
+					return "(getEveryPow2 fuel " + a + " " + b + ")", "ents"
 				}
 			}
 		case "maxClockTimeForEntries":
@@ -534,6 +549,11 @@ func (t *tr2) call(x *ast.CallExpr) (string, string) {
 	}
 	if len(x.Args) == 0 {
 		switch {
+		case sel.Sel.Name == "GetHash" && (kr == "entry" || kr == "optentry"):
+			if kr == "optentry" {
+				return "(" + recv + ".getD default).hash", "hash"
+			}
+			return recv + ".hash", "hash"
 		case sel.Sel.Name == "String" && (kr == "cid" || kr == "hash"):
 			return recv, "hash"
 		case sel.Sel.Name == "Len" && kr == "omap":
@@ -552,6 +572,25 @@ func (t *tr2) call(x *ast.CallExpr) (string, string) {
 	}
 	if sel.Sel.Name == "Slice" && kr == "omap" && len(x.Args) == 0 {
 		return recv, "ents"
+	}
+	if sel.Sel.Name == "At" && kr == "omap" && len(x.Args) == 1 {
+		// m.At(uint(i)): the i-th value or nil; a negative i converts to a huge index, i.e. nil (i.toNat = 0 is in
+		// range only for a non-empty map, where i = -1 cannot arise from Len()-1 … the proofs cover the cases)
+		if conv, ok := x.Args[0].(*ast.CallExpr); ok && src(t.fset, conv.Fun) == "uint" && len(conv.Args) == 1 {
+			i, ki := t.expr(conv.Args[0])
+			if ki == "int" {
+				return "(if decide (" + i + " < 0) then none else " + recv + "[(" + i + ").toNat]?)", "optentry"
+			}
+		}
+	}
+	if sel.Sel.Name == "Defined" && (kr == "entry" || kr == "optentry") && len(x.Args) == 0 {
+		return "true", "bool" // every entry of the model is defined
+	}
+	if sel.Sel.Name == "Equals" && kr == "cid" && len(x.Args) == 1 {
+		a, ka := t.expr(x.Args[0])
+		if ka == "hash" {
+			return "(" + recv + " == " + a + ")", "bool"
+		}
 	}
 	if sel.Sel.Name == "Merge" && kr == "omap" && len(x.Args) == 1 {
 		// OrderedMap.Merge: the model's omMerge (not translated: tied by the core stream)
@@ -1231,6 +1270,12 @@ func (t *tr2) assign(x *ast.AssignStmt, rest []ast.Stmt, fall string, inLoop boo
 		return t.fail(x, "assignment target")
 	}
 	v, kv := t.expr(x.Rhs[0])
+	if op, isOp := map[token.Token]string{token.MUL_ASSIGN: "*", token.ADD_ASSIGN: "+", token.SUB_ASSIGN: "-"}[x.Tok]; isOp {
+		if t.kinds[id.Name] == "int" && kv == "int" {
+			return "(let " + leanName(id.Name) + " := (" + leanName(id.Name) + " " + op + " " + v + "); " + cont() + ")"
+		}
+		return t.fail(x, "operator assignment")
+	}
 	switch x.Tok {
 	case token.DEFINE:
 		if kv == "" || kv == "nil" || kv == "unit" {
@@ -1428,7 +1473,7 @@ func (t *tr2) liveVars() []string {
 	}
 	var vs []string
 	for v, k := range t.kinds {
-		if strings.Contains(v, ".") || isParam[leanName(v)] || leanTypeOfKind[k] == "" || k == "log" || k == "iteropts" || k == "ctx" || k == "key" {
+		if strings.Contains(v, ".") || isParam[leanName(v)] || leanTypeOfKind[k] == "" || k == "log" || k == "iteropts" || k == "appendopts" || k == "ctx" || k == "key" {
 			continue
 		}
 		vs = append(vs, v)
@@ -1469,6 +1514,18 @@ func (t *tr2) loop(list string, elemName, elemKind string, body []ast.Stmt, rest
 		return t.block(rest, fall, inLoop)
 	}
 	tup := tupleOf(vars)
+	if hasBreak(body) {
+		// `break` in a range loop: the fold carries a flag; once it is set the remaining iterations do nothing
+		btup := "(" + strings.TrimSuffix(strings.TrimPrefix(tupleOf(append([]string{"brk__"}, vars...)), "("), ")") + ")"
+		saved := t.saveKinds()
+		t.kinds[elemName] = elemKind
+		oldBrk := t.brk
+		t.brk = strings.Replace(btup, "(brk__,", "(true,", 1)
+		b := t.block(body, btup, true)
+		t.brk = oldBrk
+		t.kinds = saved
+		return "(let " + btup + " := (" + list + ").foldl (fun " + btup + " " + leanName(elemName) + " => (if brk__ then " + btup + " else " + b + ")) " + strings.Replace(btup, "(brk__,", "(false,", 1) + "; " + t.block(rest, fall, inLoop) + ")"
+	}
 	saved := t.saveKinds()
 	t.kinds[elemName] = elemKind
 	b := t.block(body, tup, true)
@@ -1534,6 +1591,25 @@ func declaresAny(stmts []ast.Stmt) bool {
 		}
 	}
 	return false
+}
+
+// hasBreak: a `break` that belongs to this loop body (not to a nested loop)
+func hasBreak(stmts []ast.Stmt) bool {
+	found := false
+	for _, s := range stmts {
+		ast.Inspect(s, func(n ast.Node) bool {
+			switch x := n.(type) {
+			case *ast.ForStmt, *ast.RangeStmt, *ast.FuncLit, *ast.SwitchStmt:
+				return false
+			case *ast.BranchStmt:
+				if x.Tok == token.BREAK {
+					found = true
+				}
+			}
+			return true
+		})
+	}
+	return found
 }
 
 func hasReturn(stmts []ast.Stmt) bool {
@@ -1666,6 +1742,16 @@ func (t *tr2) forStmt(x *ast.ForStmt, rest []ast.Stmt, fall string, inLoop bool)
 	}
 	init, ok := x.Init.(*ast.AssignStmt)
 	post, ok2 := x.Post.(*ast.IncDecStmt)
+	if pa, isAssign := x.Post.(*ast.AssignStmt); ok && isAssign && init.Tok == token.DEFINE && len(init.Lhs) == 1 && x.Cond != nil && len(pa.Lhs) == 1 &&
+		src(t.fset, pa.Lhs[0]) == src(t.fset, init.Lhs[0]) {
+		// for i := a; cond; i op= b { body }: the initialisation, then a `for cond` loop whose every iteration
+		// (also one cut short by `continue`) ends with the post statement
+		t.postStmt = pa
+		w := &ast.ForStmt{Cond: x.Cond, Body: x.Body, For: x.For}
+		out := t.assign(init, append([]ast.Stmt{w}, rest...), fall, inLoop)
+		t.postStmt = nil
+		return out
+	}
 	if !ok || !ok2 || init.Tok != token.DEFINE || len(init.Lhs) != 1 || x.Cond == nil {
 		return t.fail(x, "for loop")
 	}
@@ -1728,7 +1814,13 @@ func (t *tr2) whileStmt(x *ast.ForStmt, rest []ast.Stmt, fall string, inLoop boo
 	if hasReturn(x.Body.List) {
 		return t.fail(x, "return inside a loop")
 	}
-	vars := t.ordered(assignedOuter(x.Body.List))
+	post := t.postStmt
+	t.postStmt = nil
+	bodyForVars := x.Body.List
+	if post != nil {
+		bodyForVars = append(append([]ast.Stmt{}, x.Body.List...), post)
+	}
+	vars := t.ordered(assignedOuter(bodyForVars))
 	if len(vars) == 0 {
 		return t.fail(x, "for-cond loop that assigns nothing")
 	}
@@ -1744,6 +1836,12 @@ func (t *tr2) whileStmt(x *ast.ForStmt, rest []ast.Stmt, fall string, inLoop boo
 	tupTy := strings.Join(tys, " × ")
 	name := fmt.Sprintf("%s_loop%d", t.fn, len(t.loops)+1)
 	call := "(" + name + " " + strings.Join(t.pnames, " ") + " fuel " + tup + ")"
+	if post != nil {
+		// the post statement runs before the next test
+		saved0 := t.saveKinds()
+		call = t.assign(post, nil, call, true)
+		t.kinds = saved0
+	}
 	saved := t.saveKinds()
 	c, kc, guard := "true", "bool", ""
 	if x.Cond != nil {
@@ -1983,6 +2081,9 @@ func needsFuel(fd *ast.FuncDecl) bool {
 			if x.Init == nil && x.Post == nil {
 				found = true
 			}
+			if _, ok := x.Post.(*ast.AssignStmt); ok {
+				found = true
+			}
 		case *ast.CallExpr:
 			if strings.HasSuffix(selChain(x.Fun), ".traverse") {
 				found = true
@@ -2057,34 +2158,81 @@ func (t *tr2) regionDecl(fd *ast.FuncDecl, name string, marker string) string {
 	if start < 0 || n == 0 {
 		return t.fail(fd, "region marker not found")
 	}
-	if _, ok := fd.Body.List[n-1].(*ast.ReturnStmt); !ok {
-		return t.fail(fd, "region does not end in the function's return")
-	}
-	region := fd.Body.List[start : n-1]
 	r := t.recv
-	fields := []struct{ key, kind string }{{r + ".Entries", "omap"}, {r + ".Next", "set"}, {r + ".heads", "omap"}, {r + ".ClockID", "bytes"}, {r + ".ClockTime", "int"}}
-	ps := []string{"(valuesOf : List Entry → List Entry → List Entry)"}
-	names := []string{"valuesOf"}
+	type fld struct{ key, kind string }
+	var fields []fld
+	type loc struct{ name, kind string }
+	var locals []loc
+	end := n - 1
+	var outputs []string
+	ps := []string{}
+	names := []string{}
+	switch marker {
+	case "join.publish":
+		// the tail of Join: up to the final return; results = the fields it assigns
+		if _, ok := fd.Body.List[n-1].(*ast.ReturnStmt); !ok {
+			return t.fail(fd, "region does not end in the function's return")
+		}
+		fields = []fld{{r + ".Entries", "omap"}, {r + ".Next", "set"}, {r + ".heads", "omap"}, {r + ".ClockID", "bytes"}, {r + ".ClockTime", "int"}}
+		locals = []loc{{"newItems", "omap"}, {"otherHeads", "omap"}, {"size", "int"}}
+		ps = append(ps, "(valuesOf : List Entry → List Entry → List Entry)")
+		names = append(names, "valuesOf")
+	case "append.locked":
+		// the plan of Append: from the lock to the creation of the entry; results = predecessors, references, clock
+		end = -1
+		for i := start; i < n; i++ {
+			if strings.Contains(src(t.fset, fd.Body.List[i]), "CreateEntryWithIO") {
+				end = i
+				break
+			}
+		}
+		if end < 0 {
+			return t.fail(fd, "end of the region (CreateEntryWithIO) not found")
+		}
+		fields = []fld{{r + ".heads", "omap"}, {r + ".ClockID", "bytes"}, {r + ".ClockTime", "int"}}
+		locals = []loc{{"opts", "appendopts"}}
+		outputs = []string{"next", "refs", r + ".ClockID", r + ".ClockTime"}
+		ps = append(ps, "(fuel : Nat)", "(lEntries : List Entry)", "(sortDesc : Entry → Entry → Bool)")
+		names = append(names, "fuel", "lEntries", "sortDesc")
+	default:
+		return t.fail(fd, "unknown region")
+	}
+	region := fd.Body.List[start:end]
 	for _, f := range fields {
 		t.kinds[f.key] = f.kind
 		ps = append(ps, "("+leanName(f.key)+" : "+leanTypeOfKind[f.kind]+")")
 		names = append(names, leanName(f.key))
 	}
-	for _, loc := range []struct{ name, kind string }{{"newItems", "omap"}, {"otherHeads", "omap"}, {"size", "int"}} {
-		t.kinds[loc.name] = loc.kind
-		ps = append(ps, "("+leanName(loc.name)+" : "+leanTypeOfKind[loc.kind]+")")
-		names = append(names, leanName(loc.name))
+	for _, l := range locals {
+		t.kinds[l.name] = l.kind
+		if l.kind == "appendopts" {
+			ps = append(ps, "(optsPointerCount : Int)")
+			names = append(names, "optsPointerCount")
+			continue
+		}
+		ps = append(ps, "("+leanName(l.name)+" : "+leanTypeOfKind[l.kind]+")")
+		names = append(names, leanName(l.name))
 	}
 	t.params, t.pnames = ps, names
 	var vars []string
-	for _, v := range t.ordered(assignedOuter(region)) {
-		if strings.HasPrefix(v, r+".") {
-			vars = append(vars, v)
+	if outputs != nil {
+		vars = outputs
+	} else {
+		for _, v := range t.ordered(assignedOuter(region)) {
+			if strings.HasPrefix(v, r+".") {
+				vars = append(vars, v)
+			}
 		}
 	}
+	// the kinds of output locals are known only after the translation: fixed for the Append plan
+	outKinds := map[string]string{"next": "cids", "refs": "cids"}
 	var tys []string
 	for _, v := range vars {
-		tys = append(tys, leanTypeOfKind[t.kinds[v]])
+		k := t.kinds[v]
+		if k == "" {
+			k = outKinds[v]
+		}
+		tys = append(tys, leanTypeOfKind[k])
 	}
 	tup := tupleOf(vars)
 	t.joinN = 0
@@ -2092,6 +2240,10 @@ func (t *tr2) regionDecl(fd *ast.FuncDecl, name string, marker string) string {
 	t.emitter = ""
 	t.monadic = 0
 	t.retType = "Option (" + strings.Join(tys, " × ") + ")"
+	if marker == "append.locked" {
+		// fuel is already among the parameters (passed on to traverse and getEveryPow2)
+		t.hasFuel = false
+	}
 	body := strings.Join(strings.Fields(t.block(region, "(some "+tup+")", false)), " ")
 	return strings.Join(t.loops, "\n") + fmt.Sprintf("def %s %s : %s :=\n  %s\n", name, strings.Join(ps, " "), t.retType, body)
 }
@@ -2124,6 +2276,7 @@ func renderSlices(repo string) map[string]string {
 		{"Fetcher", []job{{"entry/fetcher.go", []string{"updateClock", "addNextEntry"}}}},
 		{"JoinTail", []job{{"log.go", []string{"Join@join.publish"}}}},
 		{"Iterator", []job{{"log.go", []string{"sortedHeads", "Iterator"}}}},
+		{"Append", []job{{"log.go", []string{"getEveryPow2", "Append@append.locked"}}}},
 	}
 	out := map[string]string{}
 	for _, g := range groups {
@@ -2131,6 +2284,9 @@ func renderSlices(repo string) map[string]string {
 		var b strings.Builder
 		if g.name == "Iterator" {
 			b.WriteString("import Generated.GenTraverse\n")
+		}
+		if g.name == "Append" {
+			b.WriteString("import Generated.GenIterator\nimport Generated.GenMisc\n")
 		}
 		if g.name == "JoinTail" {
 			b.WriteString("import Generated.GenHeads\nimport Generated.GenMisc\n")
@@ -2150,12 +2306,17 @@ func renderSlices(repo string) map[string]string {
 						t.errs = append(t.errs, "method "+n[:i]+" not found in "+j.file)
 						continue
 					}
-					def := t.regionDecl(fd, lowerFirst(n[:i])+"Tail", n[i+1:])
+					rname := lowerFirst(n[:i]) + "Tail"
+					if n[i+1:] == "append.locked" {
+						rname = "appendPlan"
+					}
+					def := t.regionDecl(fd, rname, n[i+1:])
 					for _, h := range t.helperDefs {
 						b.WriteString(h + "\n")
 					}
 					t.helperDefs = nil
 					fmt.Fprintf(&b, "/-- `%s` after the hook %s (%s) -/\n%s\n", n[:i], n[i+1:], j.file, def)
+					_ = rname
 					continue
 				}
 				fd := findFunc(f, n)
